@@ -98,6 +98,10 @@ pub struct Model {
     pub unresolvable: BTreeSet<String>,
     /// Module path strings, in file order.
     pub module_paths: Vec<String>,
+    /// `impl` blocks for something that is not a type declared in the same module (an enum, an
+    /// extern type, an imported or generated type, a name declared nowhere): their functions
+    /// belong to nothing, so an accepted build would have dropped them.
+    pub orphan_impls: Vec<String>,
 }
 
 fn join(module: &ItemPath, name: &str) -> String {
@@ -192,6 +196,7 @@ impl Model {
 
         // Pass 2: references.
         let mut undefined = vec![];
+        let mut orphan_impls: Vec<String> = vec![];
         for (_, mpath, m) in world.modules.iter() {
             let scope = Scope {
                 own: mpath,
@@ -292,6 +297,11 @@ impl Model {
             }
             for block in &m.impls {
                 let full = join(mpath, block.name.as_str());
+                if !block.functions.is_empty()
+                    && !matches!(decls.get(&full).map(|d| &d.kind), Some(DeclKind::Type { .. }))
+                {
+                    orphan_impls.push(full.clone());
+                }
                 if !decls.contains_key(&full) {
                     continue;
                 }
@@ -351,11 +361,12 @@ impl Model {
             undefined,
             unresolvable,
             module_paths: world.modules.iter().map(|(_, p, _)| p.to_string()).collect(),
+            orphan_impls,
         }
     }
 
     pub fn expects_error(&self) -> bool {
-        !self.undefined.is_empty() || !self.unresolvable.is_empty()
+        !self.undefined.is_empty() || !self.unresolvable.is_empty() || !self.orphan_impls.is_empty()
     }
 
     /// True when the only problems are undefined names in fields and by-value cycles, which is
